@@ -676,6 +676,15 @@ def insertRoot (st : SweepSt) (loc : Loc) (i : Nat) : SweepSt :=
 def registerKept (st : SweepSt) (loc : Loc) : SweepSt :=
   if pathType loc.path = .fieldOption then { st with trie := trieRegister st.trie loc.path } else st
 
+/-! PATHS ARE EXACT.  A location path and a mark are `List Nat`: unbounded elements, compared as
+    whole lists (`mk.contains loc.path`, `e.path = p`, `isPrefixOf`).  The Go code compares
+    map keys built by `getPathKey` (four little-endian bytes per int32 element) and trie walks by
+    element; `BufProofs.C18.path_key_injective` shows the key is injective on int32 paths, so the
+    two agree for every extension number (up to 2^29-1) and every index.  A key that drops bits
+    or elements (`BufModel.ManagedYaml.pathKey16`, `path_key16_counterexample`) does not: the
+    harness's number family (custom option numbers 2^16+N …, indexes ≥ 2^8 / 2^16, confusable
+    paths) exists to show such a loss as a line mismatch and an oracle failure. -/
+
 /-- the first loop of `removeLocationsFromSourceCodeInfo`; `none` = an error is returned
     (and the location list is left as it was). `i` = index of the head of the list,
     `prev` = path of the location before it. -/
